@@ -5,17 +5,26 @@
    Gen/GenSchema.v (REGENERATED from the source on every run: the signature's container kind and tuple
    shape, the primitive types, type_mapping, the no-bounds types).
 
-   Quantification: every table schema, every schema argument, every history of append attempts of any
-   length through any handles (each with its Arrow-schema cache keyed by schema_id), every record batch,
-   every commit outcome, every behaviour `conv` of pyarrow's conversion.
+   Quantification: every table schema (columns of primitive types and list<...> types of any depth; integer
+   field ids -- Schema.__post_init__ refuses every other id, pinned by the translator), every schema argument,
+   every history of append attempts of any length through any handles (each with its Arrow-schema cache keyed
+   by schema_id), every record batch (any keys -- strs or other objects --, any values incl. lists), every
+   commit outcome, every behaviour `conv` of pyarrow's conversion; for explicit transactions every pre-built
+   file with every caller-supplied lower / upper bounds.
 
    Handle provenance (Model/SchemaOpen.v over Gen/GenOpen.v, the actions of create_table / load_table /
    Table.__init__ REGENERATED from the source): every way of obtaining each handle, with every schema argument,
    re-bound or alive side by side, interleaved with the appends in any order.
 
-   C11_exact_partial is PARTIAL: it assumes conv_sound (pyarrow stores a value the library admits as
-   `canon`, or raises) -- a statement about pyarrow, validated by the harness on every run. *)
-From Coq Require Import ZArith QArith List Bool.
+   C11_exact_partial / C11_tx_exact_partial / C11_handles_exact_partial are PARTIAL: they assume conv_sound
+   (pyarrow stores a value the library lets through as `canon`, or raises) -- a statement about pyarrow, validated by
+   the harness on every run.  The filter theorems assume conv_kinds (a converted cell has the kind of its Arrow
+   type), C11_tx_history_filter also pf_typed of every pre-built file (a parquet column holds values of its
+   footer type) -- statements about pyarrow / parquet, spelled out as hypotheses.
+   C11_tx_fault_fails_closed is DERIVED from flags regenerated from the source (Gen/GenSchema.v:
+   resolve_refresh_propagates, marker_failure_propagates, queue_failure_propagates): its proof computes with
+   their current values. *)
+From Coq Require Import ZArith QArith List Bool Lia.
 Require Import DS.Model.Value DS.Gen.GenPrune DS.Model.Prune DS.Gen.GenSchema DS.Model.Schema DS.Model.SchemaTx.
 Require Import DS.Model.OpenBase DS.Gen.GenOpen DS.Model.SchemaOpen.
 Require Import DS.Proofs.PruneProofs DS.Proofs.SchemaProofs DS.Proofs.SchemaTxProofs DS.Proofs.SchemaOpenProofs.
@@ -32,7 +41,7 @@ Print Assumptions C11_accept_scans.
 (* Hence after ANY history of append attempts -- accepted or rejected, any schema arguments and
    schema ids, fresh or reused handles with their caches, failed commits -- every file of the current
    snapshot has the same Arrow schema and the full scan does not raise. *)
-Theorem C11_history_scans : forall (conv : atype -> pyval -> option pyval) (ts : ischema) (es : list event),
+Theorem C11_history_scans : forall (conv : catype -> pyval -> option pyval) (ts : ischema) (es : list event),
   scan_ok (current (run conv (init (Some ts)) es)) = true
   /\ full_scan (run conv (init (Some ts)) es) <> None.
 Proof. exact history_scans. Qed.
@@ -50,7 +59,7 @@ Print Assumptions C11_accept_bounds.
 
 (* Filtered scans after any history: pruning by the stored bounds (looked up through the TABLE
    schema's name -> id map) never changes the answer -- composition with C13 (prune_sound). *)
-Theorem C11_history_filter : forall (conv : atype -> pyval -> option pyval) (X : value -> value -> bool) (ts : ischema) (es : list event) (fs : list fexpr),
+Theorem C11_history_filter : forall (conv : catype -> pyval -> option pyval) (X : value -> value -> bool) (ts : ischema) (es : list event) (fs : list fexpr),
   NoDup (map fname (sfields ts)) -> NoDup (map fid (sfields ts)) -> conv_kinds conv ->
   let w := run conv (init (Some ts)) es in
   filtered_scan X fs w = Some (filter (row_selected X fs) (map vrow (flat_map df_rows (current w)))).
@@ -60,9 +69,9 @@ Print Assumptions C11_history_filter.
 (* Every bound an accepted append stores is EXACTLY the minimum / maximum of the stored column (NULLs and
    NaNs apart), filed under the field id the table schema gives the column -- not a shortened, rounded or
    otherwise altered value; a column without ordinary values stores no bound. *)
-Theorem C11_history_bounds_exact : forall (conv : atype -> pyval -> option pyval) (ts : ischema) (es : list event) (f : dfile) (g : field),
+Theorem C11_history_bounds_exact : forall (conv : catype -> pyval -> option pyval) (ts : ischema) (es : list event) (f : dfile) (g : field),
   NoDup (map fname (sfields ts)) -> NoDup (map fid (sfields ts)) ->
-  In f (current (run conv (init (Some ts)) es)) -> In g (sfields ts) -> bounds_skipped (ftype g) = false ->
+  In f (current (run conv (init (Some ts)) es)) -> In g (sfields ts) -> bounds_skipped_c (ftype g) = false ->
   match bounds_of (column (map vrow (df_rows f)) (fname g)) with
   | Some (mn, mx) => lookup (fid g) (df_lo f) = Some mn /\ lookup (fid g) (df_hi f) = Some mx
   | None => lookup (fid g) (df_lo f) = None /\ lookup (fid g) (df_hi f) = None
@@ -71,10 +80,10 @@ Proof. exact history_bounds_exact. Qed.
 Print Assumptions C11_history_bounds_exact.
 
 (* Hence the stored bounds enclose every ordinary value of their column in their file. *)
-Theorem C11_history_bounds_true : forall (conv : atype -> pyval -> option pyval) (ts : ischema) (es : list event) (f : dfile) (g : field) (lo hi : value),
+Theorem C11_history_bounds_true : forall (conv : catype -> pyval -> option pyval) (ts : ischema) (es : list event) (f : dfile) (g : field) (lo hi : value),
   NoDup (map fname (sfields ts)) -> NoDup (map fid (sfields ts)) -> conv_kinds conv ->
   In f (current (run conv (init (Some ts)) es)) -> In g (sfields ts) ->
-  lookup (fid g) (df_lo f) = Some lo -> lookup (fid g) (df_hi f) = Some hi -> bounds_skipped (ftype g) = false ->
+  lookup (fid g) (df_lo f) = Some lo -> lookup (fid g) (df_hi f) = Some hi -> bounds_skipped_c (ftype g) = false ->
   forall r, In r (df_rows f) -> ordinary (cell (vrow r) (fname g)) = true ->
   vle lo (cell (vrow r) (fname g)) /\ vle (cell (vrow r) (fname g)) hi.
 Proof. exact history_bounds_true. Qed.
@@ -85,7 +94,7 @@ Print Assumptions C11_history_bounds_true.
    stale after dataclasses.replace, an in-place edit of .fields, an explicit schema_string=) are treated
    identically: same outcome, same world.  In particular a stale attribute cannot get a divergent schema accepted
    (the second step of the Example below carries a stale sstring and is rejected). *)
-Theorem C11_arg_object_irrelevant : forall (conv : atype -> pyval -> option pyval) (w : world) (e e' : event),
+Theorem C11_arg_object_irrelevant : forall (conv : catype -> pyval -> option pyval) (w : world) (e e' : event),
   e_handle e = e_handle e' -> e_recs e = e_recs e' -> e_commit_ok e = e_commit_ok e' ->
   same_decl (e_arg e) (e_arg e') ->
   step conv w e = step conv w e'.
@@ -95,7 +104,7 @@ Print Assumptions C11_arg_object_irrelevant.
 (* A rejected append (no schema, divergent schema, invalid records, conversion error, failed commit)
    leaves the schema, the snapshot list with every snapshot's reachable data files, the data files
    present on storage, and the results of all scans unchanged.  Any table, with or without schema. *)
-Theorem C11_reject_no_trace : forall (conv : atype -> pyval -> option pyval) (s0 : option ischema) (es : list event) (e : event),
+Theorem C11_reject_no_trace : forall (conv : catype -> pyval -> option pyval) (s0 : option ischema) (es : list event) (e : event),
   let w := run conv (init s0) es in
   snd (step conv w e) <> Accepted ->
   let w' := fst (step conv w e) in
@@ -105,10 +114,10 @@ Theorem C11_reject_no_trace : forall (conv : atype -> pyval -> option pyval) (s0
 Proof. exact reject_no_trace. Qed.
 Print Assumptions C11_reject_no_trace.
 
-(* Under conv_sound: after any history the full scan returns exactly `canon` of every accepted
-   record (all columns, table order, append order), and every accepted record has only known
-   fields, non-None required fields and representable values. *)
-Theorem C11_exact_partial : forall (rnd32 : Q -> num) (conv : atype -> pyval -> option pyval),
+(* Under conv_sound: after any history the full scan returns exactly `canon_c` of every accepted
+   record (all columns, table order, append order), and every accepted record has only str keys that
+   name fields, non-None required fields and representable values (lists: element by element). *)
+Theorem C11_exact_partial : forall (rnd32 : Q -> num) (conv : catype -> pyval -> option pyval),
   conv_sound rnd32 conv ->
   forall (ts : ischema) (es : list event),
   full_scan (run conv (init (Some ts)) es) = Some (expected rnd32 conv ts (init (Some ts)) es)
@@ -118,9 +127,10 @@ Theorem C11_exact_partial : forall (rnd32 : Q -> num) (conv : atype -> pyval -> 
 Proof. exact exact_history. Qed.
 Print Assumptions C11_exact_partial.
 
-(* The library's admission test only lets through values the declared type can represent. *)
-Theorem C11_fits_representable : forall (t : ptype) (v : pyval), value_fits t v = true -> representable t v.
-Proof. exact fits_representable. Qed.
+(* The library's admission test only lets through values the declared type can represent -- for list<...>
+   columns of any depth: None, or a list each of whose elements the element type can represent. *)
+Theorem C11_fits_representable : forall (c : ctype) (v : pyval), value_fits_c c v = true -> representable_c c v.
+Proof. exact fits_representable_c. Qed.
 Print Assumptions C11_fits_representable.
 
 (* ================= explicit transactions (Model/SchemaTx.v): begin / calls, some of which raise and are
@@ -128,7 +138,7 @@ Print Assumptions C11_fits_representable.
 
 (* A call that raises (tag <> 0) -- append_data refused for any reason, append_files refused at ANY of its
    files -- adds NOTHING to the transaction's queue, and no call touches the schema or the snapshot list. *)
-Theorem C11_tx_rejected_call_no_trace : forall (conv : atype -> pyval -> option pyval) (w : world) (h : Z) (c : call)
+Theorem C11_tx_rejected_call_no_trace : forall (conv : catype -> pyval -> option pyval) (w : world) (h : Z) (c : call)
     (w' : world) (wr : list Z) (t : Z) (added : list dfile),
   call_step conv w h c = (w', wr, t, added) ->
   w_schema w' = w_schema w /\ w_snaps w' = w_snaps w /\ (t <> 0 -> added = []).
@@ -139,31 +149,38 @@ Print Assumptions C11_tx_rejected_call_no_trace.
    append_files raise at once and change nothing -- an unreadable schema is never taken for "no persisted schema,
    nothing to enforce"; and under any fault window (metadata unreadable from the start, marker writes failing,
    metadata unreadable once the call has written its data file) an append_data call never succeeds and queues
-   nothing, whatever its schema argument. *)
-Theorem C11_tx_fault_fails_closed : forall (conv : atype -> pyval -> option pyval) (w : world) (h : Z),
+   nothing, whatever its schema argument.
+   Derived, not defined: Model/SchemaTx.v call_step decides what a failing refresh() / marker write / queueing
+   leads to by the flags Gen/GenSchema.v regenerates from the source on every run (is the failing operation
+   outside every `try`?); with a handler around refresh() the model takes the "no persisted schema" path and
+   this proof (by computation on the flags) breaks. *)
+Theorem C11_tx_fault_fails_closed : forall (conv : catype -> pyval -> option pyval) (w : world) (h : Z),
   (forall arg recs, call_step conv w h (CRecordsF FBefore arg recs) = (w, [], tag_storage_fault, []))
   /\ (forall fs, call_step conv w h (CFilesF FBefore fs) = (w, [], tag_storage_fault, []))
   /\ (forall ft arg recs w' wr t added, call_step conv w h (CRecordsF ft arg recs) = (w', wr, t, added) -> t <> 0 /\ added = []).
 Proof. exact fault_fails_closed. Qed.
 Print Assumptions C11_tx_fault_fails_closed.
 
-(* A successful commit of ANY transaction (any calls, any of them rejected, any world) publishes exactly one
-   snapshot holding the base files followed by the files queued by the ACCEPTED calls, in call order; when no
-   call queued anything it publishes nothing.  `honest tr`: a call with a non-zero tag contributed []. *)
-Theorem C11_tx_publishes_accepted_only : forall (conv : atype -> pyval -> option pyval) (w : world) (t : txn),
+(* A successful commit of ANY transaction (any calls, any of them rejected, any world): for THE trace tr of its
+   calls -- run_calls: per call, in order, the tag call_step gave it and the files call_step let it queue -- it
+   publishes exactly one snapshot holding the base files followed by the files of tr, in call order; when tr holds
+   no file it publishes nothing.  `honest tr`: a call that raised (non-zero tag) is in tr with no files. *)
+Theorem C11_tx_publishes_accepted_only : forall (conv : catype -> pyval -> option pyval) (w : world) (t : txn)
+    (w' : world) (q : txstate) (tr : list (Z * list dfile)),
+  run_calls conv w tx_empty (t_handle t) (t_calls t) = (w', q, tr) ->
   t_end t = EndCommit true ->
-  exists tr, honest tr /\ length tr = length (t_calls t)
-    /\ w_schema (run_tx conv w t) = w_schema w
-    /\ w_snaps (run_tx conv w t) = match flat_map snd tr with
-                                   | [] => w_snaps w
-                                   | fs => (current w ++ fs) :: w_snaps w
-                                   end.
+  honest tr /\ length tr = length (t_calls t) /\ q_files q = flat_map snd tr
+  /\ w_schema (run_tx conv w t) = w_schema w
+  /\ w_snaps (run_tx conv w t) = match flat_map snd tr with
+                                 | [] => w_snaps w
+                                 | fs => (current w ++ fs) :: w_snaps w
+                                 end.
 Proof. exact tx_commit_publishes. Qed.
 Print Assumptions C11_tx_publishes_accepted_only.
 
 (* A transaction that ends in a failed commit, a rollback, or is abandoned leaves schema, snapshot list
    (with every snapshot's files) and the full scan unchanged. *)
-Theorem C11_tx_unpublished_no_trace : forall (conv : atype -> pyval -> option pyval) (w : world) (t : txn),
+Theorem C11_tx_unpublished_no_trace : forall (conv : catype -> pyval -> option pyval) (w : world) (t : txn),
   t_end t <> EndCommit true ->
   w_schema (run_tx conv w t) = w_schema w /\ w_snaps (run_tx conv w t) = w_snaps w
   /\ full_scan (run_tx conv w t) = full_scan w.
@@ -172,11 +189,36 @@ Print Assumptions C11_tx_unpublished_no_trace.
 
 (* After any history of transactions (records and pre-built files, any handles) every file of the current
    snapshot carries the table's Arrow schema: full scans do not raise. *)
-Theorem C11_tx_history_scans : forall (conv : atype -> pyval -> option pyval) (ts : ischema) (txs : list txn),
+Theorem C11_tx_history_scans : forall (conv : catype -> pyval -> option pyval) (ts : ischema) (txs : list txn),
   scan_ok (current (run_txs conv (init (Some ts)) txs)) = true
   /\ full_scan (run_txs conv (init (Some ts)) txs) <> None.
 Proof. exact tx_history_scans. Qed.
 Print Assumptions C11_tx_history_scans.
+
+(* After any history of transactions -- records and pre-built files, WHATEVER lower / upper bounds the caller
+   supplied with them -- pruning by the stored bounds never changes a filtered scan: it returns exactly the
+   selected rows of the current snapshot.  (The bounds stored for a pre-built file are none, or recomputed from
+   its content: Model/SchemaTx.v verified_bounds.)  pf_typed: every cell of a pre-built file's column has the
+   kind of the column's footer type. *)
+Theorem C11_tx_history_filter : forall (conv : catype -> pyval -> option pyval) (X : value -> value -> bool) (ts : ischema)
+    (txs : list txn) (fs : list fexpr),
+  conv_kinds conv -> NoDup (map fname (sfields ts)) -> NoDup (map fid (sfields ts)) ->
+  Forall (txn_Q pf_typed) txs ->
+  let w := run_txs conv (init (Some ts)) txs in
+  filtered_scan X fs w = Some (filter (row_selected X fs) (map vrow (flat_map df_rows (current w)))).
+Proof. exact tx_filter_history. Qed.
+Print Assumptions C11_tx_history_filter.
+
+(* Under conv_sound: after any history of transactions the full scan returns exactly, in order, what the calls
+   of the committed transactions supplied: `canon_c` of every record of an accepted append_data call, the rows of
+   every file of an accepted append_files call, nothing for a call that raised or a transaction that did not
+   commit (txs_expected). *)
+Theorem C11_tx_exact_partial : forall (rnd32 : Q -> num) (conv : catype -> pyval -> option pyval),
+  conv_sound rnd32 conv ->
+  forall (ts : ischema) (txs : list txn),
+  full_scan (run_txs conv (init (Some ts)) txs) = Some (txs_expected conv ts rnd32 (init (Some ts)) txs).
+Proof. exact tx_exact. Qed.
+Print Assumptions C11_tx_exact_partial.
 
 (* ================= handle provenance (Model/SchemaOpen.v): handles obtained by load_table, by create_table
    with ANY schema argument on the existing table, by Table(...); re-bound, or several alive at once ================= *)
@@ -202,7 +244,7 @@ Print Assumptions C11_open_no_trace.
    snapshots with their files, stored files, full and filtered scans --, of the same history with the openings
    erased.  So C11_history_scans, C11_history_filter, C11_history_bounds_*, C11_reject_no_trace and
    C11_exact_partial hold verbatim of histories with openings. *)
-Theorem C11_handle_provenance_irrelevant : forall (conv : atype -> pyval -> option pyval) (ts : ischema) (xs : list hevent),
+Theorem C11_handle_provenance_irrelevant : forall (conv : catype -> pyval -> option pyval) (ts : ischema) (xs : list hevent),
   let w := hrun conv (init (Some ts)) xs in
   let w0 := run conv (init (Some ts)) (appends xs) in
   houtcomes conv (init (Some ts)) xs = run_outcomes conv (init (Some ts)) (appends xs)
@@ -213,13 +255,13 @@ Proof. exact handles_irrelevant. Qed.
 Print Assumptions C11_handle_provenance_irrelevant.
 
 (* Spelled out: after any such history full scans do not raise, ... *)
-Theorem C11_handles_history_scans : forall (conv : atype -> pyval -> option pyval) (ts : ischema) (xs : list hevent),
+Theorem C11_handles_history_scans : forall (conv : catype -> pyval -> option pyval) (ts : ischema) (xs : list hevent),
   scan_ok (current (hrun conv (init (Some ts)) xs)) = true /\ full_scan (hrun conv (init (Some ts)) xs) <> None.
 Proof. exact handles_history_scans. Qed.
 Print Assumptions C11_handles_history_scans.
 
 (* ... pruned filtered scans equal unpruned ones, ... *)
-Theorem C11_handles_history_filter : forall (conv : atype -> pyval -> option pyval) (X : value -> value -> bool) (ts : ischema) (xs : list hevent) (fs : list fexpr),
+Theorem C11_handles_history_filter : forall (conv : catype -> pyval -> option pyval) (X : value -> value -> bool) (ts : ischema) (xs : list hevent) (fs : list fexpr),
   NoDup (map fname (sfields ts)) -> NoDup (map fid (sfields ts)) -> conv_kinds conv ->
   let w := hrun conv (init (Some ts)) xs in
   filtered_scan X fs w = Some (filter (row_selected X fs) (map vrow (flat_map df_rows (current w)))).
@@ -227,7 +269,7 @@ Proof. exact handles_filter. Qed.
 Print Assumptions C11_handles_history_filter.
 
 (* ... and (under conv_sound, as C11_exact_partial) the full scan returns exactly canon of every accepted record. *)
-Theorem C11_handles_exact_partial : forall (rnd32 : Q -> num) (conv : atype -> pyval -> option pyval),
+Theorem C11_handles_exact_partial : forall (rnd32 : Q -> num) (conv : catype -> pyval -> option pyval),
   conv_sound rnd32 conv ->
   forall (ts : ischema) (xs : list hevent),
   full_scan (hrun conv (init (Some ts)) xs) = Some (expected rnd32 conv ts (init (Some ts)) (appends xs)).
@@ -235,7 +277,7 @@ Proof. exact handles_exact. Qed.
 Print Assumptions C11_handles_exact_partial.
 
 (* Explicit transactions through handles of any provenance: scans keep working. *)
-Theorem C11_handles_tx_history_scans : forall (conv : atype -> pyval -> option pyval) (ts : ischema) (xs : list thevent),
+Theorem C11_handles_tx_history_scans : forall (conv : catype -> pyval -> option pyval) (ts : ischema) (xs : list thevent),
   scan_ok (current (thrun conv (init (Some ts)) xs)) = true /\ full_scan (thrun conv (init (Some ts)) xs) <> None.
 Proof. exact handles_tx_history_scans. Qed.
 Print Assumptions C11_handles_tx_history_scans.
@@ -246,11 +288,11 @@ Print Assumptions C11_handles_tx_history_scans.
    one and a value 1.5 for the long column are rejected, a commit fails, and the scans see exactly the
    two accepted rows. *)
 Definition ex_fields : list field :=
-  [ {| fid := 1; fname := 0; ftype := T_long; fspell := 0; freq := true |};
-    {| fid := 2; fname := 1; ftype := T_float; fspell := 0; freq := false |} ].
+  [ {| fid := 1; fname := 0; ftype := CPrim T_long; fspell := 0; freq := true |};
+    {| fid := 2; fname := 1; ftype := CPrim T_float; fspell := 0; freq := false |} ].
 Definition ex_ts : ischema := {| sid := 1; sfields := ex_fields; sstring := 0 |}.
 Definition ex_rnd (q : Q) : num := Fin q.
-Definition ex_conv (a : atype) (v : pyval) : option pyval :=
+Definition ex_conv_prim (a : atype) (v : pyval) : option pyval :=
   match a with
   | A_int32 => if value_fits T_int v then Some (canon ex_rnd T_int v) else None
   | A_int64 => if value_fits T_long v then Some (canon ex_rnd T_long v) else None
@@ -263,20 +305,64 @@ Definition ex_conv (a : atype) (v : pyval) : option pyval :=
   | A_time64_us => if value_fits T_time v then Some v else None
   | A_timestamp_us => if value_fits T_timestamp v then Some v else None
   end.
+Fixpoint ex_conv_all (f : pyval -> option pyval) (l : list pyval) : option (list pyval) :=
+  match l with
+  | [] => Some []
+  | x :: l' => match f x, ex_conv_all f l' with Some y, Some ys => Some (y :: ys) | _, _ => None end
+  end.
+Fixpoint ex_conv (a : catype) (v : pyval) : option pyval :=
+  match a with
+  | APrim p => ex_conv_prim p v
+  | AList e => match v with
+               | PV VNull => Some v
+               | PList l => match ex_conv_all (ex_conv e) l with Some l' => Some (PList l') | None => None end
+               | _ => None
+               end
+  end.
+
+Lemma ex_conv_prim_sound t v c : value_fits t v = true -> ex_conv_prim (arrow_of_type t) v = Some c -> c = canon ex_rnd t v.
+Proof.
+  intros F H. destruct t; destruct v as [[|b|z|[q| | |]|s|u|d|u]|bs| |l]; simpl in *; try discriminate;
+    try rewrite F in H; inversion H; reflexivity.
+Qed.
+
+Lemma ex_conv_sound : conv_sound ex_rnd ex_conv.
+Proof.
+  intro t. induction t as [t|e IH]; intros v c F H; simpl in *.
+  - exact (ex_conv_prim_sound t v c F H).
+  - destruct v as [[| | | | | | |]| | |l]; try discriminate; [inversion H; reflexivity|].
+    destruct (ex_conv_all (ex_conv (arrow_of_ctype e)) l) as [l'|] eqn:E; [|discriminate]. inversion H; subst c. clear H. f_equal.
+    revert l' E. induction l as [|x l IHl]; simpl; intros l' E.
+    + inversion E; reflexivity.
+    + simpl in F. apply andb_true_iff in F. destruct F as [F1 F2].
+      destruct (ex_conv (arrow_of_ctype e) x) as [y|] eqn:Y; [|discriminate].
+      destruct (ex_conv_all (ex_conv (arrow_of_ctype e)) l) as [ys|] eqn:YS; [|discriminate].
+      inversion E; subst. rewrite (IH x y F1 Y), (IHl F2 ys eq_refl). reflexivity.
+Qed.
+
+Lemma ex_conv_kinds : conv_kinds ex_conv.
+Proof.
+  intros a v c. destruct a as [a|e]; simpl.
+  - destruct a; simpl;
+      destruct v as [[|b|z|[q| | |]|s|u|d|u]| | |l]; simpl; try discriminate; intro H; inversion H; subst; simpl; try reflexivity;
+      repeat match goal with H : (if ?b then _ else _) = _ |- _ => destruct b; inversion H; subst; simpl; try reflexivity end.
+  - destruct v as [[| | | | | | |]| | |l]; try discriminate; [intro H; inversion H; reflexivity|].
+    destruct (ex_conv_all (ex_conv e) l); intro H; inversion H; reflexivity.
+Qed.
 
 Definition ex_rec (a b : pyval) : record := [(0, a); (1, b)].
 Definition ex_history : list event :=
   [ {| e_handle := 0; e_arg := None; e_recs := [ex_rec (PV (VInt 7)) (PV (VFlt (Fin (1 # 2))))]; e_commit_ok := true |};
     {| e_handle := 0; e_arg := Some {| sid := 1; sfields := rev ex_fields; sstring := 1 |}; e_recs := [ex_rec (PV (VInt 8)) (PV VNull)]; e_commit_ok := true |};
     {| e_handle := 1; e_arg := Some {| sid := 7; sfields :=
-         [ {| fid := 2; fname := 0; ftype := T_long; fspell := 0; freq := true |}; {| fid := 1; fname := 1; ftype := T_float; fspell := 0; freq := false |} ];
+         [ {| fid := 2; fname := 0; ftype := CPrim T_long; fspell := 0; freq := true |}; {| fid := 1; fname := 1; ftype := CPrim T_float; fspell := 0; freq := false |} ];
          sstring := 1 |};
        e_recs := [ex_rec (PV (VInt 9)) (PV VNull)]; e_commit_ok := true |};
     {| e_handle := 0; e_arg := None; e_recs := [ex_rec (PV (VFlt (Fin (3 # 2)))) (PV VNull)]; e_commit_ok := true |};
     {| e_handle := 0; e_arg := None; e_recs := [ex_rec (PV (VInt 10)) (PV VNull)]; e_commit_ok := false |};
     {| e_handle := 0; e_arg := Some {| sid := 7; sfields := ex_fields; sstring := 0 |}; e_recs := [[(0, PV (VInt 11))]]; e_commit_ok := true |} ].
 
-Fixpoint outcomes (conv : atype -> pyval -> option pyval) (w : world) (es : list event) : list outcome :=
+Fixpoint outcomes (conv : catype -> pyval -> option pyval) (w : world) (es : list event) : list outcome :=
   match es with [] => [] | e :: es' => snd (step conv w e) :: outcomes conv (fst (step conv w e)) es' end.
 
 Example C11_nonvacuous :
@@ -291,13 +377,8 @@ Example C11_nonvacuous :
   /\ w_store (run ex_conv (init (Some ex_ts)) ex_history) = [2; 0]
   /\ length (w_snaps (run ex_conv (init (Some ex_ts)) ex_history)) = 2%nat.
 Proof.
-  split.
-  { intros t v c F H. destruct t; destruct v as [[|b|z|[q| | |]|s|u|d|u]|bs|]; simpl in *; try discriminate;
-      try rewrite F in H; inversion H; reflexivity. }
-  split.
-  { intros a v c. destruct a; simpl;
-      destruct v as [[|b|z|[q| | |]|s|u|d|u]| |]; simpl; try discriminate; intro H; inversion H; subst; simpl; try reflexivity;
-      repeat match goal with H : (if ?b then _ else _) = _ |- _ => destruct b; inversion H; subst; simpl; try reflexivity end. }
+  split; [exact ex_conv_sound|].
+  split; [exact ex_conv_kinds|].
   split; [repeat constructor; simpl; intuition discriminate|].
   split; [repeat constructor; simpl; intuition discriminate|].
   vm_compute. repeat split.
@@ -308,11 +389,19 @@ Qed.
    whose LAST file has a divergent footer, and an accepted records call commits one snapshot of 3 files. *)
 Definition ex_good (i : Z) : pfile :=
   {| pf_id := i; pf_canonical := true; pf_exists := true; pf_parquet := true; pf_footer := Some (arrow_of ex_fields);
-     pf_rows := [[(0, PV (VInt i)); (1, PV VNull)]] |}.
+     pf_rows := [[(0, PV (VInt i)); (1, PV VNull)]]; pf_lo := None; pf_hi := None |}.
 Definition ex_missing : pfile :=
-  {| pf_id := 99; pf_canonical := true; pf_exists := false; pf_parquet := true; pf_footer := None; pf_rows := [] |}.
+  {| pf_id := 99; pf_canonical := true; pf_exists := false; pf_parquet := true; pf_footer := None; pf_rows := [];
+     pf_lo := None; pf_hi := None |}.
 Definition ex_divergent : pfile :=
-  {| pf_id := 98; pf_canonical := true; pf_exists := true; pf_parquet := true; pf_footer := Some (rev (arrow_of ex_fields)); pf_rows := [] |}.
+  {| pf_id := 98; pf_canonical := true; pf_exists := true; pf_parquet := true; pf_footer := Some (rev (arrow_of ex_fields)); pf_rows := [];
+     pf_lo := None; pf_hi := None |}.
+(* a well-formed file holding a = 5 whose caller CLAIMS the bounds 100 .. 200 for column a (field id 1) *)
+Definition ex_lying : pfile :=
+  {| pf_id := 60; pf_canonical := true; pf_exists := true; pf_parquet := true; pf_footer := Some (arrow_of ex_fields);
+     pf_rows := [[(0, PV (VInt 5)); (1, PV VNull)]]; pf_lo := Some [(1, VInt 100)]; pf_hi := Some [(1, VInt 200)] |}.
+Definition ex_tx3 : txn := {| t_handle := 0; t_calls := [CFiles [ex_lying]]; t_end := EndCommit true |}.
+Definition ex_a_is_5 : fexpr := {| fcol := 0; fop_ := EQ; fsval := VInt 5; flval := [] |}.
 Definition ex_tx1 : txn := {| t_handle := 0; t_calls := [CFiles [ex_good 50; ex_missing]]; t_end := EndCommit true |}.
 Definition ex_tx2 : txn :=
   {| t_handle := 0;
@@ -324,8 +413,60 @@ Example C11_tx_nonvacuous :
   w_snaps (run_tx ex_conv (init (Some ex_ts)) ex_tx1) = []
   /\ map (map df_id) (w_snaps (run_txs ex_conv (init (Some ex_ts)) [ex_tx1; ex_tx2])) = [[51; 52; 0]]
   /\ full_scan (run_txs ex_conv (init (Some ex_ts)) [ex_tx1; ex_tx2])
-     = Some [ [(0, PV (VInt 51)); (1, PV VNull)]; [(0, PV (VInt 52)); (1, PV VNull)]; [(0, PV (VInt 7)); (1, PV VNull)] ].
-Proof. vm_compute. repeat split. Qed.
+     = Some [ [(0, PV (VInt 51)); (1, PV VNull)]; [(0, PV (VInt 52)); (1, PV VNull)]; [(0, PV (VInt 7)); (1, PV VNull)] ]
+  /\ txs_expected ex_conv ex_ts ex_rnd (init (Some ex_ts)) [ex_tx1; ex_tx2]
+     = [ [(0, PV (VInt 51)); (1, PV VNull)]; [(0, PV (VInt 52)); (1, PV VNull)]; [(0, PV (VInt 7)); (1, PV VNull)] ]
+  (* the trace of ex_tx2's calls: accepted (2 files), refused (tag 6, no file), accepted (1 file) *)
+  /\ (match run_calls ex_conv (init (Some ex_ts)) tx_empty 0 (t_calls ex_tx2) with
+      | (_, _, tr) => map (fun x => (fst x, map df_id (snd x))) tr end) = [(0, [51; 52]); (6, []); (0, [0])]
+  (* caller-supplied bounds: the file claiming 100 .. 200 for a column that holds 5 is stored with the bounds of
+     its CONTENT, the filtered scan a == 5 finds the row -- and pruning by the claimed bounds would have skipped it *)
+  /\ map (fun f => (df_lo f, df_hi f)) (current (run_txs ex_conv (init (Some ex_ts)) [ex_tx3])) = [([(1, VInt 5)], [(1, VInt 5)])]
+  /\ filtered_scan (fun _ _ => false) [ex_a_is_5] (run_txs ex_conv (init (Some ex_ts)) [ex_tx3]) = Some [ [(0, VInt 5); (1, VNull)] ]
+  /\ file_may_match [(1, VInt 100)] [(1, VInt 200)] (ids_of ex_fields) [ex_a_is_5] = false
+  /\ Forall (txn_Q pf_typed) [ex_tx1; ex_tx2; ex_tx3]
+  (* storage faults: the regenerated flags say that a failing refresh() / marker write reaches the caller *)
+  /\ (resolve_refresh_propagates, marker_failure_propagates, queue_failure_propagates) = (true, true, true)
+  /\ call_step ex_conv (init (Some ex_ts)) 0 (CRecordsF FAfterWrite None [ex_rec (PV (VInt 7)) (PV VNull)])
+     = (fst (fst (fst (call_step ex_conv (init (Some ex_ts)) 0 (CRecordsF FAfterWrite None [ex_rec (PV (VInt 7)) (PV VNull)])))),
+        [0], tag_storage_fault, []).
+Proof.
+  split; [vm_compute; reflexivity|]. split; [vm_compute; reflexivity|]. split; [vm_compute; reflexivity|].
+  split; [vm_compute; reflexivity|]. split; [vm_compute; reflexivity|]. split; [vm_compute; reflexivity|].
+  split; [vm_compute; reflexivity|]. split; [vm_compute; reflexivity|].
+  split.
+  { repeat constructor; simpl; auto; intros row Hrow c;
+      repeat (destruct Hrow as [<-|Hrow]; [unfold cell; simpl; repeat (destruct (Z.eqb c _); [reflexivity|]); reflexivity|]); contradiction. }
+  split; [reflexivity|]. vm_compute. reflexivity.
+Qed.
+
+(* Non-vacuity for list columns and record keys: the table {a: long (id 1); l: list<long> (id 2)}.  [1, 2.0] is
+   accepted and stored as [1, 2]; [1.5] (an element the element type cannot hold), the scalar 5 in the list
+   column, and a record with a key that is not a str (-2: an object whose str() is the name of column l) are
+   refused and leave no trace. *)
+Definition ex_lfields : list field :=
+  [ {| fid := 1; fname := 0; ftype := CPrim T_long; fspell := 0; freq := true |};
+    {| fid := 2; fname := 1; ftype := CList (CPrim T_long); fspell := 1; freq := false |} ].
+Definition ex_lts : ischema := {| sid := 1; sfields := ex_lfields; sstring := 0 |}.
+Definition ex_lapp (r : record) : event := {| e_handle := 0; e_arg := None; e_recs := [r]; e_commit_ok := true |}.
+Definition ex_lhistory : list event :=
+  [ ex_lapp [(0, PV (VInt 1)); (1, PList [PV (VInt 1); PV (VFlt (Fin (2 # 1)))])];
+    ex_lapp [(0, PV (VInt 2)); (1, PList [PV (VFlt (Fin (3 # 2)))])];
+    ex_lapp [(0, PV (VInt 3)); (1, PV (VInt 5))];
+    ex_lapp [(0, PV (VInt 4)); (-2, PV (VStr []))] ].
+
+Example C11_lists_keys_nonvacuous :
+  outcomes ex_conv (init (Some ex_lts)) ex_lhistory = [Accepted; RejRecords; RejRecords; RejRecords]
+  /\ full_scan (run ex_conv (init (Some ex_lts)) ex_lhistory) = Some [ [(0, PV (VInt 1)); (1, PList [PV (VInt 1); PV (VInt 2)])] ]
+  /\ value_fits_c (CList (CPrim T_long)) (PList [PV (VInt 1); PV (VFlt (Fin (2 # 1)))]) = true
+  /\ ~ representable_c (CList (CPrim T_long)) (PList [PV (VFlt (Fin (3 # 2)))])
+  /\ map (fun f => (df_lo f, df_hi f)) (current (run ex_conv (init (Some ex_lts)) ex_lhistory)) = [([(1, VInt 1)], [(1, VInt 1)])].
+Proof.
+  split; [vm_compute; reflexivity|]. split; [vm_compute; reflexivity|]. split; [vm_compute; reflexivity|].
+  split; [|vm_compute; reflexivity].
+  simpl. intro H. inversion H as [|x l H1 H2]; subst. destruct H1 as [z [_ [E|[q [E Q]]]]]; [discriminate|].
+  inversion E; subst. unfold Qeq in Q. simpl in Q. lia.
+Qed.
 
 (* Non-vacuity for handle provenance.  ex_narrow is the table's schema with b narrowed-by-name only: the SAME
    schema_id, b retyped float -> double and the columns reordered.  (1) Handle 0 is re-obtained by
@@ -335,8 +476,8 @@ Proof. vm_compute. repeat split. Qed.
    write a file with the foreign layout and the full scan would raise. *)
 Definition ex_narrow : ischema :=
   {| sid := 1; sstring := 0; sfields :=
-     [ {| fid := 2; fname := 1; ftype := T_double; fspell := 0; freq := false |};
-       {| fid := 1; fname := 0; ftype := T_long; fspell := 0; freq := true |} ] |}.
+     [ {| fid := 2; fname := 1; ftype := CPrim T_double; fspell := 0; freq := false |};
+       {| fid := 1; fname := 0; ftype := CPrim T_long; fspell := 0; freq := true |} ] |}.
 Definition ex_app (z : Z) : event :=
   {| e_handle := 0; e_arg := None; e_recs := [ex_rec (PV (VInt z)) (PV (VFlt (Fin (1 # 2))))]; e_commit_ok := true |}.
 Definition ex_hhistory : list hevent :=
